@@ -17,6 +17,9 @@ type FuzzTarget struct {
 	Func  string // Go fuzz function in /verif/fuzz
 	Kind  string // case kind the crasher is replayed as
 	Execs int    // -fuzztime=<Execs>x
+	// Steer marks a generator-steering target (fuzz input = the generator's random choices, see
+	// RunSteered): a crasher is re-run in the driver and the generated case(s) that fail become the findings.
+	Steer bool
 }
 
 var failingInputRe = regexp.MustCompile(`Failing input written to (\S+)`)
@@ -60,7 +63,7 @@ func RunFuzz(d *DriverCtx, targets []FuzzTarget) {
 		cmd := exec.Command("go", "test", "-tags", "verif", "-run=^$", "-fuzz=^"+tg.Func+"$", fmt.Sprintf("-fuzztime=%dx", tg.Execs),
 			"-test.fuzzcachedir="+cache, "-parallel=16", ".")
 		cmd.Dir = fdir
-		cmd.Env = append(os.Environ(), "GOFLAGS=-mod=mod", "GOPROXY=off", "GOSUMDB=off", "GOTOOLCHAIN=local")
+		cmd.Env = append(os.Environ(), "GOFLAGS=-mod=mod", "GOPROXY=off", "GOSUMDB=off", "GOTOOLCHAIN=local", "VERIF_WORK_RUN="+d.WorkDir)
 		out, err := cmd.CombinedOutput()
 		text := string(out)
 		d.Cov["fuzz:"+tg.Func+":execs-budget"] = int64(tg.Execs)
@@ -82,7 +85,20 @@ func RunFuzz(d *DriverCtx, targets []FuzzTarget) {
 			if !filepath.IsAbs(p) {
 				p = filepath.Join(fdir, p)
 			}
-			if in, ok := decodeCorpus(p); ok {
+			if in, ok := decodeCorpus(p); ok && tg.Steer {
+				ct := NewT(d.Prop, d.Tier, 1)
+				ct.Replay = true
+				RunSteered(Lookup(d.Prop), ct, in)
+				if len(ct.Findings) > 0 {
+					for _, f := range ct.Findings {
+						f.Msg = "[fuzz " + tg.Func + ", generated case] " + f.Msg
+						*d.Findings = append(*d.Findings, f)
+					}
+					continue
+				}
+				*d.Findings = append(*d.Findings, Finding{Kind: SteerKind, Input: in, Msg: "[fuzz " + tg.Func + "] a steered generator run failed in the fuzz worker but not when re-run in the driver"})
+				continue
+			} else if ok {
 				msg := "native fuzzing found a failing input"
 				if i := strings.Index(text, "VIOLATION"); i >= 0 {
 					msg = text[i:]
